@@ -29,7 +29,7 @@ MAP_OPS = ['store'] * 4 + ['multi'] * 2 + ['empty', 'abort']
 
 
 def shards(tier, seed):
-    return split(tier, seed, 600, 80000, 40, 900)
+    return split(tier, seed, 5000, 80000, 40, 900)
 
 
 def make_storage(kind, d, FSM):
